@@ -127,7 +127,7 @@ func RandProps(r *rand.Rand, label string) gts.Props {
 	return p
 }
 
-var gbKeys = []string{"gene", "CDS", "misc_feature", "exon", "mRNA", "repeat_region", "primer_bind", "rep_origin", "sig_peptide", "misc_difference", "regulatory"}
+var gbKeys = []string{"gene", "CDS", "misc_feature", "exon", "mRNA", "repeat_region", "primer_bind", "rep_origin", "sig_peptide", "misc_difference", "regulatory", "5'UTR", "3'UTR", "D-loop", "-10_signal"}
 
 // RandGenBank draws a record of the core writable domain.
 func RandGenBank(r *rand.Rand, o GBOpt, labelPrefix string) seqio.GenBank {
